@@ -40,6 +40,7 @@ type Fault struct {
 //	dup-header  the request header named Arg is duplicated in flight
 //	drop-query  the query parameter named Arg is removed in flight
 //	flip        the byte at wire offset At of the request is XORed with 0x20 (unstructured corruption)
+//	append      a re-framing intermediary forwards the request with Arg appended to the body (framing stays valid)
 
 type callKey struct{}
 
@@ -243,7 +244,13 @@ func (t *SimTransport) attempt(req *http.Request, ci *callInfo, name string, att
 	go func() {
 		defer t.WG.Done()
 		defer close(writeDone)
-		err := req.Write(wire) // closes req.Body
+		var err error
+		if kind == "append" && req.Body != nil && req.Body != http.NoBody {
+			err = reframe(req, wire, []byte(f.Arg))
+			ci.Rec.fire()
+		} else {
+			err = req.Write(wire) // closes req.Body
+		}
 		if err != nil {
 			if req.Body != nil {
 				_ = req.Body.Close()
@@ -367,6 +374,30 @@ func (t *SimTransport) attempt(req *http.Request, ci *callInfo, name string, att
 			return nil, respErr, false
 		}
 	}
+}
+
+// reframe is a buffering intermediary: it receives the whole request, appends extra bytes to the body and
+// forwards it with a consistent Content-Length.
+func reframe(req *http.Request, wire io.Writer, extra []byte) error {
+	var buf bytes.Buffer
+	if err := req.Write(&buf); err != nil {
+		return err
+	}
+	r2, err := http.ReadRequest(bufio.NewReader(&buf))
+	if err != nil {
+		return err
+	}
+	body, err := io.ReadAll(r2.Body)
+	if err != nil {
+		return err
+	}
+	body = append(body, extra...)
+	r2.Body = io.NopCloser(bytes.NewReader(body))
+	r2.ContentLength = int64(len(body))
+	r2.TransferEncoding = nil
+	r2.URL.Scheme, r2.URL.Host = "http", r2.Host
+	r2.RequestURI = ""
+	return r2.Write(wire)
 }
 
 type flipWriter struct {
